@@ -13,6 +13,7 @@ def run(ctx) -> None:
     q = ctx.quick
     fams = [("scopes", 4 if q else 6), ("nest", 6 if q else 7), ("macro0", 6 if q else 7), ("shadowdata", 5 if q else 6),
             ("loopleak", 5 if q else 7), ("deferarg", 6 if q else 7), ("symshadow", 5 if q else 6), ("assignleak", 5 if q else 6), ("fwdshadow", 7 if q else 8), ("exportleak", 5 if q else 6)]
+    fams_more = [("underexport", 5 if q else 6)]   # round 8: underscore-leading names exported from named scopes
     ctx.rule = ("programs = every program over the 'scopes' (<= %d), 'nest' (<= %d), 'macro0' (<= %d), 'shadowdata' (<= %d), 'loopleak' (<= %d), "
                 "'deferarg' (<= %d), 'symshadow' (<= %d), 'assignleak' (<= %d), 'fwdshadow' (<= %d) and 'exportleak' (<= %d) alphabets of MC_Asm + "
                 "seeded APR trees (nesting <= 4, macros, loops); non-trivial = programs with a reference that crosses a "
@@ -21,7 +22,7 @@ def run(ctx) -> None:
     ctx.assumptions = ["re-definition of a name in one scope and more than one dot in a qualified name are not judged"]
     n = 400 if q else 6000
     randoms = [apr.gen_program(ctx.seed * 15485863 + k, size=8 + k % 10, maxdepth=4, moves=False) for k in range(n)]
-    progs, res, stats = asmfam.run_families(ctx, fams, randoms, "c08.trace", "TraceAsm judging scoping programs")
+    progs, res, stats = asmfam.run_families(ctx, fams + fams_more, randoms, "c08.trace", "TraceAsm judging scoping programs")
     for k, p in enumerate(progs):
         if any(s["k"] in ("block", "scope", "apply", "for") for s in p["body"]):
             ctx.nontrivial.add(k)
